@@ -67,9 +67,9 @@ def f(c: bool, d: bool) -> int:
     if d:
         pass
     if c:
-        y = x + 1
+        y = u + 1
     else:
-        y = x + 2
+        y = u + 2
     return y
 """),
     ("maybe_undefined", """
